@@ -76,7 +76,7 @@ pub fn run(rep: &Report) {
     let (n, d) = if quick { (4, 3) } else { (6, 4) };
     let ts = trees(n, d);
     let names = ["_sd", "..."];
-    let lookalikes = ["_sdx", "_s", "..", "....", " _sd", "_SD", "_sd_alg_x", "…"];
+    let lookalikes = ["_sdx", "_s", "..", "....", " _sd", "_SD", "_sd_alg_x", "…", "x\"_sd", "x\"...", "\"_sd", "\"...", "_sd\"", "...\"", "_sd\":", "...\":1", "\\_sd", "_sd\u{0}", "\u{feff}_sd"];
     let vals = [json!(1), json!("x"), Value::Null, json!([]), json!({}), json!(["d"]), json!({"a": 1})];
     let fmts = [Fmt::Compact, Fmt::Json];
     par_for(rep, ts.len(), |i, l| {
